@@ -588,6 +588,72 @@ def flag_case(draw, op):
     return c
 
 
+# ---- constructors with a dtype= that changes the kind of the data, and requires_grad=True -----------------------
+@st.composite
+def ctor_flag_cases(draw):
+    return {"src": draw(st.sampled_from(["float_array", "float_list", "int_array", "int_list", "bool_array", "np_float_scalar", "np_int_scalar",
+                                         "py_float", "py_int"])),
+            "dtype": draw(st.sampled_from([None, "float32", "float64", "int64", "int32", "bool", "uint8", "float16"])),
+            "via": draw(st.sampled_from(["Tensor", "tensor", "Parameter", "ones", "zeros", "arange", "eye", "ones_like", "zeros_like"])),
+            "ambient": draw(st.sampled_from(["on", "on", "no_grad"]))}
+
+
+def check_ctor_flag(c, rec):
+    src = {"float_array": np.array([1.5, 2.5]), "float_list": [1.5, 2.5], "int_array": np.array([1, 2]), "int_list": [1, 2],
+           "bool_array": np.array([True, False]), "np_float_scalar": np.float64(2.5), "np_int_scalar": np.int64(3),
+           "py_float": 2.5, "py_int": 3}[c["src"]]
+    dtype = None if c["dtype"] is None else np.dtype(c["dtype"]).type
+    via = c["via"]
+    rec.tag(via, f"dtype={c['dtype']}")
+    like = Tensor(np.asarray(src))
+
+    def build():
+        if via == "Tensor":
+            return Tensor(src, requires_grad=True, dtype=dtype)
+        if via == "tensor":
+            return sg.tensor(src, requires_grad=True, dtype=dtype)
+        if via == "Parameter":
+            return sg.nn.Parameter(Tensor(src, requires_grad=True, dtype=dtype))
+        if via == "ones":
+            return sg.ones(2, 3, dtype=dtype, requires_grad=True)
+        if via == "zeros":
+            return sg.zeros(2, dtype=dtype, requires_grad=True)
+        if via == "arange":
+            return sg.arange(4, dtype=dtype, requires_grad=True)
+        if via == "eye":
+            return sg.eye(3, dtype=dtype, requires_grad=True)
+        if via == "ones_like":
+            return sg.ones_like(like, dtype=dtype, requires_grad=True)
+        return sg.zeros_like(like, dtype=dtype, requires_grad=True)
+
+    grad_on = c["ambient"] == "on"
+    try:
+        if grad_on:
+            t = build()
+        else:
+            with sg.no_grad():
+                t = build()
+    except Exception as e:  # noqa: BLE001
+        t, err = None, e
+    if t is None:
+        # a refusal is only legitimate when the result would not be floating point
+        kind_changes = dtype is not None
+        res_float = (np.dtype(dtype).kind == "f") if dtype is not None else None
+        if res_float is True and via in ("Tensor", "tensor", "Parameter", "ones", "zeros", "arange", "eye", "ones_like", "zeros_like"):
+            raise Violation("float_refused", f"{via}({c['src']}, dtype={c['dtype']}, requires_grad=True) raised {type(err).__name__}: "
+                                             f"{err} although the result is floating point; {c}")
+        rec.skip = "refused"
+        return
+    rec.nontrivial(dtype is not None)
+    is_float = np.dtype(t.dtype).kind == "f"
+    if t.requires_grad and not is_float:
+        raise Violation("nonfloat_requires_grad", f"{via}({c['src']}, dtype={c['dtype']}, requires_grad=True) returned a {t.dtype} tensor "
+                                                  f"with requires_grad=True; only floating-point tensors may require grad; {c}")
+    if is_float and t.requires_grad != grad_on:
+        raise Violation("leaf_flag", f"{via}(..., requires_grad=True) under gradient mode {'on' if grad_on else 'off'} returned "
+                                     f"requires_grad={t.requires_grad}; {c}")
+
+
 # ---- contexts that overlap without being nested (a generator suspended inside one, explicit enter/exit) -------
 @st.composite
 def overlap_cases(draw):
@@ -707,6 +773,7 @@ def subchecks():
         subs.append(SubCheck("flag_nn_" + op.name, make_flag_check(op), (lambda op=op: flag_case(op)), quick=100, thorough=1000))
     subs.append(SubCheck("module_freeze_unfreeze", check_freeze, freeze_cases, quick=200, thorough=2000))
     subs.append(SubCheck("flag_two_tensor_losses", check_loss_flags, loss_flag_cases, quick=200, thorough=2000))
+    subs.append(SubCheck("constructor_cast_flag", check_ctor_flag, ctor_flag_cases, quick=400, thorough=4000))
     subs.append(SubCheck("overlapping_contexts", check_overlap, overlap_cases, quick=500, thorough=6000, shards_thorough=2))
     for op in _ops.OPS:
         subs.append(SubCheck("release_t_" + op.name, make_release_check(op), (lambda op=op: release_case(op)), quick=60, thorough=800))
